@@ -539,3 +539,5 @@ def _re_match(pat="std::io::ErrorKind::Interrupted"):
 m("x7-retry-matches-wouldblock", "C14", IO, _RE_ORIG, _re_match("std::io::ErrorKind::WouldBlock"), "R14.1.retry_loop")
 m("x7-retry-matches-two-kinds", "C14", IO, _RE_ORIG, _re_match("std::io::ErrorKind::Interrupted | std::io::ErrorKind::TimedOut"), "R14.1.retry_loop")
 m("x7-retry-matches-any-io-error", "C14", IO, _RE_ORIG, "            match r {\n                Err(crate::VolatileMemoryError::IOError(_)) => continue,\n                _ => break r,\n            }", "R14.1.retry_loop")
+m("x7-raw-fd-try-from-abs", "C13", IO, "    if bytes_written < 0 {\n        Err(VolatileMemoryError::IOError(std::io::Error::last_os_error()))\n    } else {\n        Ok(bytes_written.try_into().unwrap())\n    }",
+  "    usize::try_from(bytes_written.wrapping_abs())\n        .map_err(|_| VolatileMemoryError::IOError(std::io::Error::last_os_error()))", "R13.5.raw_fd")
